@@ -1,6 +1,8 @@
 import SstModel.Generated.Funcs
 import SstModel.Model.Filter
 import SstModel.Model.Cmp
+import SstModel.Model.Block
+import SstModel.Model.BlockBuilder
 import SstModel.Spec.Judge
 import Driver.Proto
 /-
@@ -112,6 +114,77 @@ def checkIndex (acc : DAcc) (off b : Nat) : IO DAcc := do
       acc ← report { acc with diffs := acc.diffs + 1 } s!"DIFF get_filter_index {off} {b} gen={showRes toString g} model={m}"
   pure acc
 
+/-- outcome up to the panic-site text -/
+def cls {α} [BEq α] (a b : Res α) : Bool :=
+  match a, b with
+  | .ok x, .ok y => x == y
+  | .panic _, .panic _ => true
+  | .err c, .err d => decide (c = d)
+  | .diverge, .diverge => true
+  | _, _ => false
+
+instance : BEq BlockIter where
+  beq a b := a.block == b.block && a.restartsOff == b.restartsOff && a.offset == b.offset && a.curEntryOff == b.curEntryOff
+    && a.curRestartIx == b.curRestartIx && a.key == b.key && a.valOffset == b.valOffset
+
+/-- walk a block forward with the translated and the model `advance` in lock step, then backward with `prev`, and
+    compare `seek_to_last`, `seek_to_restart_point` -/
+def checkBlock (acc : DAcc) (contents : Bytes) : IO DAcc := do
+  let mut acc := acc
+  match Block.iter contents with
+  | .ok it0 =>
+    let fuel := contents.length * 2 + 40
+    let mut it := it0
+    for _ in [0:40] do
+      acc := { acc with evals := acc.evals + 1 }
+      let g := Gen.bi_advance fuel it
+      let m := it.advance
+      if !(cls g m) then
+        acc ← report { acc with diffs := acc.diffs + 1 } s!"DIFF bi_advance block={hx contents} offset={it.offset} gen={showRes (fun p => toString p.2) g} model={showRes (fun p => toString p.2) m}"
+      match m with
+      | .ok (it', true) =>
+        it := it'
+        let gp := Gen.bi_prev fuel it'
+        let mp := it'.prev
+        acc := { acc with evals := acc.evals + 1 }
+        if mp.isOk || mp.isPanic then
+          if !(cls gp mp) then
+            acc ← report { acc with diffs := acc.diffs + 1 } s!"DIFF bi_prev block={hx contents} entry_offset={it'.curEntryOff} gen={showRes (fun p => toString p.2) gp} model={showRes (fun p => toString p.2) mp}"
+      | _ => break
+    let gl := Gen.bi_seek_to_last fuel it0
+    let ml := it0.seekToLast
+    acc := { acc with evals := acc.evals + 1 }
+    if (ml.isOk || ml.isPanic) && !(cls gl ml) then
+      acc ← report { acc with diffs := acc.diffs + 1 } s!"DIFF bi_seek_to_last block={hx contents}"
+    for ix in [0:4] do
+      acc := { acc with evals := acc.evals + 1 }
+      if !(cls (Gen.bi_seek_to_restart_point it0 ix) (it0.seekToRestartPoint ix)) then
+        acc ← report { acc with diffs := acc.diffs + 1 } s!"DIFF bi_seek_to_restart_point block={hx contents} ix={ix}"
+  | _ => pure ()
+  pure acc
+
+/-- build a block with the translated and the model builder in lock step -/
+def checkBuilder (acc : DAcc) (ri : Nat) (es : List (Bytes × Bytes)) : IO (DAcc × Bytes) := do
+  let mut acc := acc
+  let mut bm : BlockBuilder := BlockBuilder.new ri
+  for (k, v) in es do
+    acc := { acc with evals := acc.evals + 1 }
+    let g := Gen.bb_add (k.length + 5) defaultCmp bm k v
+    let m := BlockBuilder.add defaultCmp bm k v
+    let same := match g, m with
+      | .ok a, .ok b => a.buffer == b.buffer && a.restarts == b.restarts && a.lastKey == b.lastKey && a.restartCounter == b.restartCounter && a.counter == b.counter
+      | .panic _, .panic _ => true
+      | _, _ => false
+    if !same then
+      acc ← report { acc with diffs := acc.diffs + 1 } s!"DIFF bb_add key={hx k} val={hx v} after {bm.counter} entries (restart interval {ri})"
+    match m with
+    | .ok b => bm := b
+    | _ => pure ()
+  let gf := Gen.bb_finish (bm.restarts.length + 5) bm
+  if gf.toOption.map (·.2) ≠ some bm.finish then
+    acc ← report { acc with diffs := acc.diffs + 1 } s!"DIFF bb_finish after {bm.counter} entries"
+  pure (acc, bm.finish)
+
 def main : IO Unit := do
   let mut acc : DAcc := {}
   let small := strings [0x00, 0x01, 0x7f, 0xfe, 0xff] 3
@@ -142,4 +215,19 @@ def main : IO Unit := do
   for off in [0, 1, 2047, 2048, 2049, 4096, 65535, 65536, 0xffffffff, 0x100000000, 0x80000000000, 0x7fffffffffffffff, 0xffffffffffffffff] do
     for b in [0, 1, 8, 11, 12, 31, 32, 63] do
       acc ← checkIndex acc off b
+  -- blocks: built by the builders in lock step, then walked by the iterators in lock step; damaged variants
+  let entrySets : List (List (Bytes × Bytes)) :=
+    [[], [([], [])], [([0x61], [0x31]), ([0x61, 0x62], []), ([0x61, 0x62, 0x63], [0x33, 0x33]), ([0x62], [0x34])],
+     (List.range 20).map (fun i => ([0x6b, UInt8.ofNat (0x30 + i / 10), UInt8.ofNat (0x30 + i % 10)], List.replicate (i % 4) 0x76)),
+     [(List.replicate 130 0x61, List.replicate 129 0x62), (List.replicate 130 0x61 ++ [0x62], [])],
+     [([0x61], [0x31]), ([0x61], [0x32])], [([0x62], [0x31]), ([0x61], [0x32])]]
+  for es in entrySets do
+    for ri in [1, 2, 3, 16] do
+      let (a, blk) ← checkBuilder acc ri es
+      acc := a
+      acc ← checkBlock acc blk
+      -- damaged copies (the iterator methods must agree on ill-formed contents too, panics included)
+      for at_ in [0, 1, 2, blk.length / 2, blk.length - 5, blk.length - 1] do
+        if at_ < blk.length then
+          acc ← checkBlock acc (blk.set at_ ((blk.getD at_ 0) ^^^ 0x83))
   IO.println s!"SUMMARY evaluations={acc.evals} diffs={acc.diffs} judge_failures={acc.judge}"
